@@ -69,7 +69,12 @@ func (server *Server) HDel(conn *redis.Conn, key string, fields []string) (*redi
 	if !ok {
 		return redis.NewIntegerMessage(0), nil
 	}
-	return redis.NewIntegerMessage(hash.Del(fields)), nil
+	removedCount := hash.Del(fields)
+	// A hash that became empty no longer exists.
+	if len(hash) == 0 {
+		db.RemoveRecord(key)
+	}
+	return redis.NewIntegerMessage(removedCount), nil
 }
 
 // nolint: ifshort
